@@ -113,7 +113,7 @@ func genC15(t *Tape) (*SrvScenario, *c15Info, bool) {
 	// a long session: one connection that stays open for some hundred requests (a poller's working day), so that
 	// whatever the server keeps per connection - buffers, windows, counters - is used far beyond its first few frames
 	longSession := 0
-	if !t.Has("nconn") && !t.Has("nreq") && !t.Has("cutmode") && !t.Has("fc") && t.Chance(1, 150) {
+	if !t.Has("nconn") && !t.Has("nreq") && !t.Has("cutmode") && !t.Has("fc") && t.Chance(1, 70) {
 		longSession = 90 + t.Choose(340)
 		nconn = 1
 		sc.LongPauses = true
